@@ -446,7 +446,7 @@ pub fn run(p: &Params, rep: &mut Report) {
         "requests the library accepts although the model refuses them (or vice versa) are C03/C04's business: counted, the history is abandoned".into(),
         "run-time flags (changed, serialize mode) are not part of the snapshot".into(),
     ];
-    let total: u64 = if p.thorough { 10000 } else { 300 };
+    let total: u64 = if p.thorough { 10000 } else { 600 };
     for k in p.cases(total) {
         rep.current_case = p.case_coord(k);
         rep.cases += 1;
